@@ -20,6 +20,15 @@ equals termwise the sum over blocks of `y_e^T inv(C_e) y_e`, and each summand is
 block; a sum of non-negative reals is non-negative).  `sqrt` is never applied to a distance in the `psd` harness
 (the engine would record `d >= 0` as a side condition of the square root and make the obligation vacuous).
 
+The engine's inverse is adjugate/det as a fraction; sums over several blocks multiply the denominators without ever
+cancelling, so x^T P x of a graph with more than one block explodes in the term algebra.  The Mahalanobis
+harnesses therefore run menpo with a reciprocal-variable model of numpy.linalg.inv (`Recip`: 1/det(C_e) is ONE
+solver variable t_e with t_e*det(C_e) = 1, shared with the oracle through the canonical determinant polynomial);
+that the blocks written this way are the plain inverses is an obligation of its own.  `precision` uses the
+engine's plain fraction inverse.  History: the first run of this module found that one feature per vertex raised
+LinAlgError (0-d covariance handed to linalg.inv); repaired in /repo ("fix: GMRF models with one feature per
+vertex ...").
+
 Developer self test: `C12_SELFTEST=1 ./check C12 --no-evidence` replaces the instance list by mutants (a plausible
 bug is patched into menpo behind cfg flag "selftest_mutant"); each must be reported as a VIOLATION.
 """
@@ -55,10 +64,16 @@ META = {
                "of which 1-2 rows symbolic, the rest exact constants)",
                "samples: n = 3 or 4 fully symbolic rows in [-4,4] (k=1), queries in [-4,4]",
                "block covariances assumed well conditioned: det(C_e) >= 0.05 (1x1: variance >= 0.05)",
-               "dtype/n_components: 6 concrete data sets (seeds) per configuration, 8 samples"],
+               "mahalanobis_sqrt: exact-constant training data (4-6 samples), symbolic queries",
+               "increment: 3 symbolic samples, then 1-2 more",
+               "dtype/n_components: 1-3 features per vertex, n_components in {None, 1, 2, block size, block size + 2}, "
+               "3 (quick) / 6 concrete data sets of 8 samples per configuration, bias alternating"],
     "stubs": ["scipy.sparse.bsr_matrix (name imported into menpo/model/gmrf.py) -> dense BSR model in this file, "
               "cross-validated against scipy on menpo's own index arrays at every construction",
-              "numpy.cov / numpy.linalg.inv -> engine models (exact covariance; adjugate inverse)"],
+              "numpy.cov / numpy.linalg.inv -> engine models (exact covariance; adjugate inverse)",
+              "mahalanobis / psd(split) / vectorizable: numpy.linalg.inv -> adjugate times a reciprocal variable t with "
+              "t*det = 1 (class Recip); obligation block[e].reciprocal_model=inverse ties it to the plain inverse",
+              "mahalanobis_sqrt: numpy.sqrt -> engine model (fresh r >= 0 with r*r = d)"],
     "assumptions": ["floats are modelled as exact reals (symbolic part); replay compares floats with a 1e-6 margin",
                     "block covariances are positive definite with det >= 0.05 ('well-conditioned data sets')",
                     "PSD by decomposition relies on: a finite sum of non-negative reals is non-negative"],
@@ -298,21 +313,9 @@ def _install(F, cfg):
     BSRModel.checks = []
     if F.sym and not cfg.get("real_bsr"):
         F.patch(G, "bsr_matrix", BSRModel)
-    if cfg.get("devfix"):
-        # developer aid only (never in instances()): the suggested repair of the 0-d covariance defect
-        orig = G._covariance_matrix_inverse
-        F.patch(G, "_covariance_matrix_inverse", lambda c, nc: orig(_atleast_2d(c), nc))
-    if cfg.get("selftest_mutant"):
-        _mutate(F, cfg["selftest_mutant"])
-
-
-def _atleast_2d(c):
-    c = np.asarray(c) if not isinstance(c, np.ndarray) else c
-    if c.ndim == 0:
-        out = np.empty((1, 1), dtype=c.dtype)
-        out[0, 0] = c.item() if c.dtype != object else c[()]
-        return out
-    return c
+    mutant = cfg.get("selftest_mutant") or os.environ.get("C12_MUTANT_ALL")  # the latter: developer timing aid only
+    if mutant:
+        _mutate(F, mutant)
 
 
 def _bsr_validated(F, ob, expected=True):
